@@ -50,7 +50,25 @@ def corpus_cases():
            ("tuple", (("array", W(S), 2), ("array", ("tuple", (u8, A)), 3))), ("tuple", (("array", ("tuple", (u8, A)), 3), W(S))), ("ph", 0),
            ("tuple", (("ph", 0), u8)), ("tuple", (u8, ("ph", 0)))]
     gs = [(tr, (t,)) for tr in ("Sized", "Copy", "Clone", "Tuple", "FnPtr") for t in tys]
-    return [(p, gs)]
+    out = [(p, gs)]
+    # declared where-clauses on ADT parameters are NOT trusted by the clause builders (closed goals are not WF-checked):
+    # `struct Wrapper<T> where T: Sized { len: usize, value: T }`: Wrapper<str> is not Sized
+    usize, T0 = ("scalar", "usize"), ("var", 0)
+    wr = rg.Adt("Wrapper", 1, "struct", [[usize, T0]])
+    wr.wcs = [("Sized", (T0,))]
+    cw = rg.Adt("CW", 1, "struct", [[T0]])
+    cw.wcs = [("Copy", (T0,)), ("Clone", (T0,)), ("Sized", (T0,))]
+    ew = rg.Adt("EW", 1, "enum", [[T0], []])
+    ew.wcs = [("Sized", (T0,))]
+    p2 = rg.Prog([wr, cw, ew, rg.Adt("Plain", 1, "struct", [[T0]]), rg.Adt("A")],
+                 [rg.Trait("Sized", wk="sized"), rg.Trait("Copy", wk="copy"), rg.Trait("Clone", wk="clone"), rg.Trait("Obj", obj=True)],
+                 [rg.Impl(0, ("Copy", (u8,))), rg.Impl(0, ("Clone", (u8,))), rg.Impl(1, ("Clone", (("adt", "CW", (T0,)),)), [("Clone", (T0,))])], [], "corpus")
+    Wr = lambda t: ("adt", "Wrapper", (t,))
+    uns = [("slice", u8), ("str",), ("dyn", "Obj"), ("ph", 0), u8, A]
+    tys2 = [Wr(t) for t in uns] + [("tuple", (u8, Wr(("str",)))), ("adt", "Plain", (Wr(("slice", u8)),)), ("array", Wr(("str",)), 2), Wr(Wr(("str",))), Wr(Wr(u8))]
+    tys2 += [("adt", "CW", (t,)) for t in uns] + [("adt", "EW", (t,)) for t in uns]
+    out.append((p2, [(tr, (t,)) for tr in ("Sized", "Copy", "Clone") for t in tys2]))
+    return out
 
 
 def run(ctx):
